@@ -183,7 +183,7 @@ func ruleR29(c *Ctx) {
 					}
 					return
 				}
-				if externalPure[name] {
+				if isExternalPure(name) {
 					return
 				}
 				if strings.HasPrefix(name, "sync.Pool.") {
